@@ -41,8 +41,9 @@ CView == <<View, cs, lastS, cnt>>
 NoneS == [t |-> NegInf, v |-> -1, ty |-> "none"]
 IsStaleS(x) == x.ty # "none" /\ x.v = 0
 IsHistS(x) == x.ty \in {"h", "fh"}
-\* number of bucket entries of the histogram the harness uses for value symbol v (a staleness marker has none)
-Bk(x) == IF IsHistS(x) /\ x.v # 0 THEN x.v + 2 ELSE 0
+\* number of bucket entries of the histogram the harness appends for value symbol v: symbol 1 lists three entries (one of
+\* them an explicitly empty bucket), the others two; a staleness marker has none
+Bk(x) == IF IsHistS(x) /\ x.v # 0 THEN (IF x.v = 1 THEN 3 ELSE 2) ELSE 0
 
 \* one in-order sample stored: commitFloats / commitHistograms / commitFloatHistograms (and appendWALFloat /
 \* appendWALHistogram during replay): updateStaleSeriesMetricOnAppend(wasStale, isStale), then
